@@ -2656,4 +2656,92 @@ theorem Frame.inherit {s : Store} (hw : WF s) (y b : Nat) : Frame s (inherit s y
 
 end ClassTables
 
+
+/-! ## shared read-only table -/
+namespace SharedTable
+
+def trunOk (th : TThread) : Prop :=
+  match th.run with
+  | none => True
+  | some (r, c, v, e) => e = (List.range c).map (fun i => (i, v)) ∧ ∃ rest, th.todo = (r + c, v) :: rest
+
+def tfinal (th : TThread) : List (List (Nat × Nat)) := th.results ++ th.todo.map texpected
+
+structure TInv (slot0 : Nat) (progs : Tid → List (Nat × Nat)) (s : TState) : Prop where
+  ok : ∀ t, trunOk (s.threads t)
+  fin : ∀ t, tfinal (s.threads t) = tseq (progs t)
+  slot : s.slot = slot0
+
+theorem TInv.init (slot0 : Nat) (progs : Tid → List (Nat × Nat)) : TInv slot0 progs (tinit slot0 progs) := by
+  refine ⟨?_, ?_, rfl⟩ <;> intro t <;> simp [tinit, trunOk, tfinal, tseq]
+
+theorem TInv.step {cfg : TCfg} (hc : cfg.ctorWrites = false) {slot0 : Nat} {progs : Tid → List (Nat × Nat)}
+    {s s' : TState} {t : Tid} (h : TInv slot0 progs s) (hs : tstep cfg s t = some s') : TInv slot0 progs s' := by
+  have hok := h.ok t
+  have hfin := h.fin t
+  suffices hT : trunOk (s'.threads t) ∧ tfinal (s'.threads t) = tfinal (s.threads t) ∧
+      (∀ u, u ≠ t → s'.threads u = s.threads u) ∧ s'.slot = s.slot by
+    refine ⟨?_, ?_, by rw [hT.2.2.2]; exact h.slot⟩
+    · intro u
+      by_cases hu : u = t
+      · subst hu; exact hT.1
+      · rw [hT.2.2.1 u hu]; exact h.ok u
+    · intro u
+      by_cases hu : u = t
+      · subst hu; rw [hT.2.1]; exact hfin
+      · rw [hT.2.2.1 u hu]; exact h.fin u
+  unfold tstep at hs
+  split at hs
+  · rename_i r c v e hrun
+    simp only [Option.some.injEq] at hs
+    subst hs
+    unfold trunOk at hok
+    simp only [hrun] at hok
+    obtain ⟨he, rest, htodo⟩ := hok
+    unfold tstepRun
+    cases r with
+    | zero =>
+      refine ⟨?_, ?_, fun u hu => by simp [tset, hu], rfl⟩
+      · simp [tset, trunOk]
+      · simp [tset, tfinal, htodo, he, texpected]
+    | succ r' =>
+      simp only [hc, Bool.false_eq_true, if_false]
+      refine ⟨?_, ?_, fun u hu => by simp [tset, hu], rfl⟩
+      · simp only [tset, trunOk, if_true]
+        refine ⟨?_, rest, ?_⟩
+        · rw [he, List.range_succ, List.map_append]; rfl
+        · rw [htodo]; congr 2; omega
+      · simp [tset, tfinal]
+  · rename_i hrun
+    split at hs
+    · simp at hs
+    · rename_i k v rest htodo
+      simp only [hc, Bool.false_eq_true, if_false, Option.some.injEq] at hs
+      subst hs
+      refine ⟨?_, ?_, fun u hu => by simp [tset, hu], rfl⟩
+      · simp [tset, trunOk, htodo]
+      · simp [tset, tfinal]
+
+inductive TReach (cfg : TCfg) (s0 : TState) : TState → Prop
+  | init : TReach cfg s0 s0
+  | next {s s' : TState} {t : Tid} : TReach cfg s0 s → tstep cfg s t = some s' → TReach cfg s0 s'
+
+theorem TInv.reach {cfg : TCfg} (hc : cfg.ctorWrites = false) {slot0 : Nat} {progs : Tid → List (Nat × Nat)}
+    {s : TState} (h : TReach cfg (tinit slot0 progs) s) : TInv slot0 progs s := by
+  induction h with
+  | init => exact TInv.init slot0 progs
+  | next _ hs ih => exact ih.step hc hs
+
+theorem treach_trun {cfg : TCfg} {s0 s : TState} (h : TReach cfg s0 s) (sched : List Tid) :
+    TReach cfg s0 (trun cfg s sched) := by
+  induction sched generalizing s with
+  | nil => exact h
+  | cons t ts ih =>
+    simp only [trun]
+    split
+    · rename_i s' hs; exact ih (.next h hs)
+    · exact ih h
+
+end SharedTable
+
 end SqlglotModel.Threads
